@@ -425,12 +425,44 @@ Corrupt_RunPastEnd ==
        IN Bad(bits \o HdrBits(TRUE, 2) \o LsbBits(0, 5) \o LsbBits(1, 5) \o LsbBits(15, 4) \o CB(1) \o IB(1)
                    \o SymBits(lgood, lcwg, 65) \o SymBits(lgood, lcwg, 256), "len_run_overflow")
 
+\* like Bad, but the stream carries on to a proper end after the offending construct (raw
+\* framing only: no trailer has to be invented): a decoder that lets the construct pass finds
+\* nothing else to object to
+BadThenEnd(newbits, reason) ==
+  /\ AllowCorrupt /\ Rarely(12) /\ expect = "done" /\ ~zl
+  /\ bits' = newbits \o Zeros(PadLen(Len(newbits)))
+  /\ expect' = "rej" /\ why' = reason /\ ph' = "done"
+  /\ feats' = feats \cup {"corrupt_" \o reason \o "_then_valid"}
+  /\ UNCHANGED <<plain, zl, fin, ll, dl, lcw, dcw, pdl, pdcw, nblk, ntok>>
+
 \* undefined length / distance symbols of the fixed code
 Corrupt_Symbol ==
   /\ ph = "tokens" /\ ll = FixedLitLens
   /\ \E k \in {"len_symbol", "dist_symbol"} :
        IF k = "len_symbol" THEN Bad(bits \o SymBits(FixedLitLens, FixedLitCW, 286), k)
        ELSE Bad(bits \o SymBits(FixedLitLens, FixedLitCW, 257) \o SymBits(FixedDistLens32, FixedDistCW, 30), k)
+
+\* the same undefined symbols inside an otherwise complete final block: symbol 286 / 287 followed
+\* by a good distance code, symbol 30 / 31 as the distance of a good length, then end of block
+Corrupt_SymbolThenValid ==
+  /\ ph = "tokens" /\ ll = FixedLitLens /\ fin /\ Len(plain) >= 1
+  /\ \E k \in {"len_symbol", "dist_symbol"}, which \in {0, 1} :
+       IF k = "len_symbol"
+         THEN BadThenEnd(bits \o SymBits(FixedLitLens, FixedLitCW, 286 + which) \o SymBits(FixedDistLens32, FixedDistCW, 0)
+                              \o SymBits(FixedLitLens, FixedLitCW, 256), k)
+         ELSE BadThenEnd(bits \o SymBits(FixedLitLens, FixedLitCW, 257) \o SymBits(FixedDistLens32, FixedDistCW, 30 + which)
+                              \o SymBits(FixedLitLens, FixedLitCW, 256), k)
+
+\* HLIT = 30 (287 lengths) or HDIST = 30 (31 lengths) in front of otherwise complete, valid tables,
+\* one literal and the end-of-block code
+Corrupt_TableSizesThenValid ==
+  /\ CanStartBlock
+  /\ \E k \in {"hlit", "hdist"} :
+       LET lgood == MkLens(IF k = "hlit" THEN 287 ELSE 257, <<65, 66, 256, 100>>, "balanced")
+           dgood == MkLens(IF k = "hdist" THEN 31 ELSE 2, <<0, 1>>, "balanced")
+           lcwg == AssignCodes(lgood)
+       IN BadThenEnd(bits \o HdrBits(TRUE, 2) \o DynHeaderBits(Len(lgood), Len(dgood), lgood \o dgood, TRUE, "all19")
+                          \o SymBits(lgood, lcwg, 65) \o SymBits(lgood, lcwg, 256), k)
 
 \* a distance reaching before the start of the output
 Corrupt_DistBeforeStart ==
@@ -490,7 +522,7 @@ GNext ==
   \/ GenEndBlock
   \/ Finish
   \/ Corrupt_ZlibHeader \/ Corrupt_BlockType3 \/ Corrupt_StoredLen \/ Corrupt_TableSizes \/ Corrupt_Lens \/ Corrupt_RunPastEnd
-  \/ Corrupt_Symbol \/ Corrupt_DistBeforeStart \/ Corrupt_UnusedCode \/ Corrupt_Trailer \/ Corrupt_StaleDistCode
+  \/ Corrupt_Symbol \/ Corrupt_SymbolThenValid \/ Corrupt_TableSizesThenValid \/ Corrupt_DistBeforeStart \/ Corrupt_UnusedCode \/ Corrupt_Trailer \/ Corrupt_StaleDistCode
 
 \* the stream as bytes
 RECURSIVE PackBytes(_, _)
